@@ -3,7 +3,7 @@
 set -e
 cd "$(dirname "$0")/.."
 n=$1; d=$(mktemp -d /tmp/mf-XXXX)
-rsync -a --exclude target --exclude .git /repo/ $d/repo/
+mkdir -p $d/repo; git -C /repo archive HEAD | tar -x -C $d/repo   # committed HEAD: unaffected by a seedeval run that has /repo patched for a moment
 (cd $d/repo && git apply --whitespace=nowarn /verif/mutants/$n.diff)
 ./engine/facts.sh $d/repo .work/m_$n.json
 rm -rf $d .work/m_$n.d
